@@ -173,6 +173,8 @@ type Tape struct {
 	Args    []int64     `json:"args"`
 	Values  []TapeEntry `json:"values"`
 	Choices []int       `json:"choices"`
+	// scheduling decisions (pre-emptions, task order), replayed by the engine's concrete mode
+	Sched []int `json:"sched,omitempty"`
 	Assert  string      `json:"assert,omitempty"`
 	// virtual-time deltas (ns) of the vAdvance calls on the path and whether a
 	// timer fired, so that a native replay can wait for exactly that long
@@ -214,6 +216,7 @@ type Path struct {
 	// nondet log (for tapes)
 	nondets []TapeEntry
 	choices []int
+	sched   []int // every scheduling decision taken (Choose of a kind other than vChoose), in order
 	labels  map[string]*Term
 
 	// results
@@ -393,6 +396,14 @@ func (p *Path) Branch(cond *Term) bool {
 
 // Choose makes an n-way nondeterministic choice (no constraint attached).
 func (p *Path) Choose(n int, kind string) int {
+	r := p.choose(n, kind)
+	if kind != "vChoose" && n > 1 {
+		p.sched = append(p.sched, r)
+	}
+	return r
+}
+
+func (p *Path) choose(n int, kind string) int {
 	if n <= 1 {
 		return 0
 	}
@@ -400,6 +411,10 @@ func (p *Path) Choose(n int, kind string) int {
 		t := p.W.Opts.ConcreteTape
 		if kind == "vChoose" && t != nil && len(p.choices) < len(t.Choices) {
 			return t.Choices[len(p.choices)] % n
+		}
+		// scheduling decisions (pre-emptions, task order) are replayed from the tape
+		if kind != "vChoose" && t != nil && len(p.sched) < len(t.Sched) {
+			return t.Sched[len(p.sched)] % n
 		}
 		return 0
 	}
@@ -586,6 +601,7 @@ func (p *Path) tapeFor(m Model, assert string) *Tape {
 		t.Values = append(t.Values, e)
 	}
 	t.Choices = append(t.Choices, p.choices...)
+	t.Sched = append(t.Sched, p.sched...)
 	ev := p.C.NewEvaluator(m)
 	for _, a := range p.advances {
 		t.Advances = append(t.Advances, int64(ev(a.after)-ev(a.before)))
@@ -602,14 +618,29 @@ func (p *Path) replayable(m Model, extra ...*Term) Model {
 		return m
 	}
 	c := p.C
+	// progressively wider windows: the orderings fixed by the path may not fit the narrowest one
+	for _, win := range [][2]uint64{{100e6, 400e6}, {50e6, 1000e6}, {20e6, 3000e6}, {5e6, 10000e6}} {
+		cons := append([]*Term{}, extra...)
+		for _, d := range p.delayVars {
+			cons = append(cons, c.And(c.Sle(c.Const(64, win[0]), d), c.Sle(d, c.Const(64, win[1]))))
+		}
+		if res, m2 := p.check(cons...); res == Sat {
+			return m2
+		}
+	}
+	// greedy, one delay at a time (a path may pin some delay to a value outside every window)
 	cons := append([]*Term{}, extra...)
+	best := m
 	for _, d := range p.delayVars {
-		cons = append(cons, c.And(c.Sle(c.Const(64, 100e6), d), c.Sle(d, c.Const(64, 400e6))))
+		for _, win := range [][2]uint64{{100e6, 400e6}, {20e6, 3000e6}} {
+			try := append(append([]*Term{}, cons...), c.And(c.Sle(c.Const(64, win[0]), d), c.Sle(d, c.Const(64, win[1]))))
+			if res, m2 := p.check(try...); res == Sat {
+				cons, best = try, m2
+				break
+			}
+		}
 	}
-	if res, m2 := p.check(cons...); res == Sat {
-		return m2
-	}
-	return m
+	return best
 }
 
 // Nondet creates a fresh symbolic variable.
